@@ -980,7 +980,7 @@ def discharge_by_guard(s):
                 if gc:
                     rng = pr.of_operand(gc[0].args[1])
                     src = Prov(b).of_operand(s.call.args[1])
-                    if has_root(rng, "call", "slice::len") and has_root(rng, "agg", "Range"):
+                    if has_root(rng, "call", "slice::len") and (has_root(rng, "agg", "Range") or has_root(rng, "agg", "RangeTo")) and not has_root(rng, "binop"):
                         # the len() call's receiver must be the copy source
                         for lc in b.calls_to("slice::len"):
                             if any(x[0] == "call" and x[1] == "slice::len" and x[2] == lc.bb for x in rng):
@@ -996,7 +996,7 @@ def discharge_by_guard(s):
                 if gc:
                     rng = pr.of_operand(gc[0].args[1])
                     dstr = Prov(b).of_operand(s.call.args[0])
-                    if has_root(rng, "call", "slice::len") and has_root(rng, "agg", "Range") and has_root(rng, "const", 0):
+                    if has_root(rng, "call", "slice::len") and not has_root(rng, "binop") and ((has_root(rng, "agg", "Range") and has_root(rng, "const", 0)) or has_root(rng, "agg", "RangeTo")):
                         for lc in b.calls_to("slice::len"):
                             if any(x[0] == "call" and x[1] == "slice::len" and x[2] == lc.bb for x in rng):
                                 lr = Prov(b).of_operand(lc.args[0])
